@@ -43,6 +43,15 @@ def logged_tc_worker(model, time_points, *, integrator, y0, logpath):  # noqa: A
     return scan._time_course_worker(model, time_points=time_points, integrator=integrator, y0=y0)  # noqa: SLF001
 
 
+def logged_protocol_worker(model, protocol, *, integrator, y0, time_points_per_step=10, logpath):  # noqa: ANN001, ANN201
+    from mxlpy import scan
+
+    fd = os.open(logpath, os.O_WRONLY | os.O_CREAT | os.O_APPEND, 0o644)
+    os.write(fd, b"row\n")
+    os.close(fd)
+    return scan._protocol_worker(model, protocol, integrator=integrator, y0=y0, time_points_per_step=time_points_per_step)  # noqa: SLF001
+
+
 def logged_ss_worker(model, *, rel_norm, integrator, y0, logpath):  # noqa: ANN001, ANN201
     from mxlpy import scan
 
@@ -85,7 +94,7 @@ def run_workload(wl: dict, cache_dir: Path | None, logpath: str):  # noqa: ANN20
         inputs = [(_key(o["key"]), (logpath, _key(o["key"]), o["size"])) for o in wl["ops"]]
         res = parallelise(cache_work, inputs, cache=cache, parallel=wl["parallel"], max_workers=wl["W"], disable_tqdm=True)
         return [[canon(k), digest_of(canon(v["tag"])), v["n"], digest_of(v["blob"].hex())] for k, v in res]
-    if kind in ("scan_time_course", "scan_steady_state"):
+    if kind in ("scan_time_course", "scan_steady_state", "mc_time_course", "scan_protocol"):
         vals = [o["value"] for o in wl["ops"]]
         idx = [_key(o["key"]) for o in wl["ops"]]
         if idx and isinstance(idx[0], tuple):
@@ -93,7 +102,21 @@ def run_workload(wl: dict, cache_dir: Path | None, logpath: str):  # noqa: ANN20
         else:
             index = pd.Index(idx)
         to_scan = pd.DataFrame({"k1": vals}, index=index)
-        if kind == "scan_time_course":
+        if kind == "mc_time_course":
+            from mxlpy import mc
+
+            r = mc.time_course(
+                _chain_model(), time_points=np.array([0.0, 0.5, 1.0]), mc_to_scan=to_scan, cache=cache, max_workers=wl["W"],
+                worker=partial(logged_tc_worker, logpath=logpath),
+            )
+        elif kind == "scan_protocol":
+            from mxlpy import make_protocol
+
+            r = scan.protocol(
+                _chain_model(), to_scan=to_scan, protocol=make_protocol([(0.5, {"k2": 0.5}), (0.5, {"k2": 1.0})]), time_points_per_step=2,
+                cache=cache, parallel=wl["parallel"], worker=partial(logged_protocol_worker, logpath=logpath),
+            )
+        elif kind == "scan_time_course":
             r = scan.time_course(
                 _chain_model(), to_scan=to_scan, time_points=np.array([0.0, 0.5, 1.0]), cache=cache,
                 parallel=wl["parallel"], worker=partial(logged_tc_worker, logpath=logpath),
@@ -170,7 +193,7 @@ def forked_run(wl: dict, cache_dir: Path | None, logpath: str, kill: dict | None
 # --------------------------------------------------------------------------
 def gen_workload(rng: SimRng, tier: str) -> dict:  # noqa: ARG001
     r = rng("workload")
-    kind = rng.weighted("workload", [("parallelise", 6), ("scan_time_course", 2), ("scan_steady_state", 1)])
+    kind = rng.weighted("workload", [("parallelise", 6), ("scan_time_course", 2), ("scan_steady_state", 1), ("mc_time_course", 1), ("scan_protocol", 1)])
     n = r.randint(1, 5)
     keystyle = r.choice(["int", "str", "tuple", "int", "mixed", "int", "str", "tuple", "int", "mixed", "collide"])
     ops = []
@@ -195,7 +218,7 @@ def gen_workload(rng: SimRng, tier: str) -> dict:  # noqa: ARG001
             ops.append({"key": k, "size": size})
         else:
             ops.append({"key": k, "value": r.randint(1, 8) / 4})
-    parallel = r.random() < 0.45
+    parallel = r.random() < 0.45 or kind == "mc_time_course"
     return {
         "kind": kind,
         "ops": ops,
@@ -320,10 +343,10 @@ class CrashMachine(Machine):
     name = "crash"
     properties = ("C19",)
     level = "fault_enumeration"
-    runs = {"quick": 96, "thorough": 6000}
+    runs = {"quick": 80, "thorough": 6000}
     run_timeout = 300.0
     rule = (
-        "one run = one seeded workload (parallelise with a logging function, or scan.time_course / scan.steady_state; "
+        "one run = one seeded workload (parallelise with a logging function, or scan.time_course / scan.steady_state / scan.protocol / mc.time_course; "
         "int/str/tuple/mixed keys; result sizes 0..70 kB; sequential or SimPool with W workers) and, for it, the crash "
         "histories R0 no cache -> R1 killed -> [R1' killed again] -> R2 -> R3 for EVERY line-level kill point in "
         "mxlpy/parallel.py (exhaustive when <= 400 points, else stratified sample), sampled kill points in all mxlpy frames "
